@@ -442,7 +442,8 @@ partial def loop (inp out : IO.FS.Stream) (st : St) : IO St := do
         let what := (verdict.drop 4).toString
         let clauses := ((what.splitOn "@").headD what).splitOn "+"
         clauses.map fun clause =>
-          let aud := if clause.startsWith "generator" then "RNG" else "SH"
+          let aud := if clause.startsWith "generator" then "RNG" else if clause.startsWith "record_" then "C11"
+                     else if clause.startsWith "cache_" then "C10" else "SH"
           s!"A {aud} {hid} 0 {clause} tr=1 op=step"
     for l in lines do emit out l
     loop inp out { st with stats := bump (bump st.stats "long:histories") (if nInstr > 1024 then "long:more_than_1024_instructions" else "long:short"),
